@@ -258,12 +258,17 @@ class _:
         "f6": "forall(i, 0 <= i < len(result), 0 <= ghost('fks', i) <= ms(ghost('fe', i)) and result[i]._key == self.bibstr[ghost('fks', i):ms(ghost('fe', i))].strip())",
         "fields-range": "forall(i, 0 <= i < len(result), old(CUR()) <= ghost('fe', i) and ghost('fr', i) < CUR())",
         "fields-keys": "forall(i, 0 <= i < len(result), key_start_ok(i, first_key_start))",
+        "keys-seen": "not same(keys, duplicate_keys) and forall(i, 0 <= i < len(result), result[i]._key in keys)",
+        "duplicates": "forall((i, j), 0 <= i < j < len(result), implies(result[i]._key == result[j]._key, result[i]._key in duplicate_keys))",
+        "duplicates-size": "len(duplicate_keys) >= 0 and implies(len(duplicate_keys) == 0, forall(k, 'str', True, not (k in duplicate_keys)))",
         "key-start": "0 <= key_start <= BLEN() and (midx(self._unaccepted_mark) >= 0 or (len(result) == 0 and key_start == first_key_start) or (len(result) > 0 and ghost('fr', len(result) - 1) == CUR() - 1 and mk(CUR() - 1) == 4 and key_start == me(CUR() - 1)))",
         "no-at": "no_block_start(old(CUR()), CUR())",
     }, "decreases": "2 * (NMARKS() - CUR()) + (1 if midx(self._unaccepted_mark) >= 0 else 0)", "props": ("C01", "C02", "C03", "C04")}}
     ensures = {
         "C02.closed": "exists(r, old(CUR()) <= r < NMARKS(), mk(r) == 2 and CUR() == r + 1 and result[1] == me(r) and self._current_char_index == ms(r)) and midx(self._unaccepted_mark) == -1 and scan(self)",
         "C02.fields": "fresh(result[0]) and fresh(result[2]) and forall(i, 0 <= i < len(result[0]), fresh(result[0][i]) and field_at(result[0][i], self, ghost('fe', i), ghost('fr', i), ghost('fks', i)) and old(CUR()) <= ghost('fe', i) and ghost('fr', i) < CUR() and key_start_ok(i, first_key_start))",
+        "C09.duplicate-field-keys": "forall((i, j), 0 <= i < j < len(result[0]), implies(result[0][i]._key == result[0][j]._key, result[0][i]._key in result[2]))",
+        "C09.no-duplicates-means-empty": "len(result[2]) >= 0 and implies(len(result[2]) == 0, forall(k, 'str', True, not (k in result[2])))",
         "C04.no-at-consumed": "no_block_start(old(CUR()), CUR())",
     }
     raises = {"BlockAbortedException": {
@@ -373,6 +378,7 @@ class _:
     ghost_code = [("comma_mark = self._next_mark(", [("ec", None, "midx(comma_mark)")])]
     ensures = {
         "C02.entry": "implies(cls_is(result, 'Entry'), entry_read(as_ref(result, 'ref:Entry'), self, old(CUR()) - 1, m_val, ghost('ec')))",
+        "C09.duplicates-flagged": "implies(cls_is(result, 'Entry'), forall((i, j), 0 <= i < j < len(as_ref(result, 'ref:Entry')._fields), as_ref(result, 'ref:Entry')._fields[i]._key != as_ref(result, 'ref:Entry')._fields[j]._key))",
         "C09.duplicate-fields-wrapper": "implies(not cls_is(result, 'Entry'), cls_is(result, 'DuplicateFieldKeyBlock') and fresh(result) and not isnone(as_ref(result, 'ref:DuplicateFieldKeyBlock')._ignore_error_block) and cls_is(as_ref(as_ref(result, 'ref:DuplicateFieldKeyBlock')._ignore_error_block, 'ref:Block'), 'Entry') and entry_read(as_ref(as_ref(result, 'ref:DuplicateFieldKeyBlock')._ignore_error_block, 'ref:Entry'), self, old(CUR()) - 1, m_val, ghost('ec')) and same(result._raw, as_ref(as_ref(result, 'ref:DuplicateFieldKeyBlock')._ignore_error_block, 'ref:Entry')._raw) and same(result._start_line_in_file, as_ref(as_ref(result, 'ref:DuplicateFieldKeyBlock')._ignore_error_block, 'ref:Entry')._start_line_in_file))",
         "C04.scan": "scan(self) and midx(self._unaccepted_mark) == -1 and no_block_start(old(CUR()), CUR()) and self._current_char_index == ms(CUR() - 1) and mk(CUR() - 1) == 2",
     }
